@@ -366,6 +366,35 @@ let collector_line line =
   let a = List.rev !arrival in
   fmt_cstate (finalize error_sort_when_muted mute (collect_all a))
 
+(* statscmp: <collected tree> <file tree> [flag 0|1] -- the mismatches StatsCollector::validate_other_stats reports, in order,
+   and the any-errors flag afterwards.  tree = top;rdh;its;trg;err;alp  (values of a struct separated by ','; alp = ~ or top/rof);
+   a value is the hex of its canonical text: leaves are compared as strings *)
+let statscmp_line line =
+  let vals s = String.split_on_char ',' s in
+  let tree s =
+    match String.split_on_char ';' s with
+    | [ top; rdh; its; trg; err; alp ] ->
+        { s_top = vals top; s_rdh = { r_top = vals rdh; r_its = vals its; r_trg = vals trg }; s_err = vals err;
+          s_alp = (if alp = "~" then None else match String.split_on_char '/' alp with
+                   | [ t; r ] -> Some { a_top = vals t; a_rof = vals r } | _ -> failwith "alp") }
+    | _ -> failwith "tree" in
+  match split_ws line with
+  | a :: b :: rest ->
+      let flag = (match rest with [ "1" ] -> true | _ -> false) in
+      let r = sc_validate (fun (x : string) y -> x = y) "" (tree a) (tree b) in
+      let tag = function ST_sc -> "sc" | ST_rdh -> "rdh" | ST_err -> "err" | ST_trg -> "trg" | ST_its -> "its" | ST_alp -> "alp" | ST_rof -> "rof" | ST_alp_missing -> "alpmissing" in
+      let ms = List.map (fun (t, i) -> tag t ^ ":" ^ string_of_int (int_of_n i)) r in
+      Printf.sprintf "mism=%s flag=%d" (if ms = [] then "-" else String.concat "," ms) (if flag_after_compare flag (r <> []) then 1 else 0)
+  | _ -> "BAD"
+
+(* statsfile: <old hex|-> <new hex|-> -- the bytes of the statistics file after writing `new` over a file holding `old` *)
+let statsfile_line line =
+  match split_ws line with
+  | [ o; n ] ->
+      let l x = if x = "-" then [] else bytes_of_hex x in
+      hex_of_bytes (written_file stats_file_replaced_on_write (l o) (l n))
+  | _ -> "BAD"
+
 (* stats: <src> <filter> <skip> <analysed 0|1> <input hex> -- scanner + forwarding + analysis statistics + collector *)
 let stats_line line =
   match split_ws line with
@@ -425,6 +454,8 @@ let () =
     | "collector" -> collector_line
     | "stats" -> stats_line
     | "cli" -> cli_line
+    | "statscmp" -> statscmp_line
+    | "statsfile" -> statsfile_line
     | "wordspec" -> wordspec_line
     | "rdhspec" -> rdhspec_line
     | _ -> prerr_endline ("unknown stream " ^ stream); exit 2
